@@ -25,6 +25,8 @@ TRUSTED_BASE = [
     "no Axiom/Parameter/Admitted in /verif/coq (grep-checked on every run); Print Assumptions output recorded below",
     "extraction: ExtrOcamlBasic only (Extract Inductive bool/option/unit/list/prod/sumbool/sumor, Extract Inlined Constant for their projections); nat/positive/N/Z stay Coq datatypes; OCaml 4.13.1 compiler; ocaml/driver.ml (and, for the reader stream of C10, ExtractReader.v + ocaml/rddriver.ml)",
     "hand-written Gallina model tied to /repo by the correspondence run described in coverage (differential execution of the extracted model and the implementation built from /repo's working tree)",
+    "harness/emitskel.py: line readers that turn the gofmt'ed rule functions of a generated file into the token notation of Model/Emit.v (skeleton) and Model/SEmit.v (every statement named)",
+    "Model/Exec.v: what Go does for each statement form of a rule function (goto / break / return / switch control flow, the runtime calls) is stated there by hand",
     "Go toolchain used to build the implementation side",
 ]
 
